@@ -137,7 +137,8 @@ def run(tier):
     n = 600 if tier == "quick" else 8000
     g1 = common.run_tlc_many("Ssa", c05.ssa_cfg("c06_sim_a", 2, 3, 2, 6), 6, n, 90, seed + 3, allow_violation=True)
     g2 = common.run_tlc_many("Ssa", c05.ssa_cfg("c06_sim_b", 3, 3, 3, 5), 6, n // 2, 90, seed + 4, allow_violation=True)
-    recs = [r for r in g1.records + g2.records
+    g3 = common.run_tlc_many("Ssa", c05.ssa_cfg("c06_sim_c", 3, 6, 2, 5), 6, n // 2, 90, seed + 5, allow_violation=True)
+    recs = [r for r in g1.records + g2.records + g3.records
             if len({round(f(r["tp"][i + 1]) - f(r["tp"][i]), 12) for i in range(len(r["tp"]) - 1)}) == 1]
     items = []
     for i, rec in enumerate(recs):
